@@ -248,6 +248,20 @@ def explore_histories(ctx, n):
             symlink_scenario(ctx, base, kind, via)
             ctx.count("symlink-scenario")
             ctx.distinct_add(("symlink", kind, via))
+    # local pulls stage the file in a temporary directory: hard link (archive to archive) and internal copy (no transport tool)
+    for stype, tools in (("A", "both"), ("F", "none"), ("A", "none")):
+        for name in ("f.dat", "sub/deep/f.dat"):
+            spec = {"groups": [{"name": "g1"}, {"name": "g2"}],
+                    "nodes": [{"name": "n1", "group": "g1", "stype": stype, "host": "h1", "active": True, "username": "u", "address": "addr"},
+                              {"name": "n2", "group": "g2", "stype": "A", "host": "h1", "active": True, "username": "u", "address": "addr"}],
+                    "acqs": ["acq1"], "files": [{"acq": "acq1", "name": name, "size": 150}], "copies": [{"file": 0, "node": "n1", "has": "Y", "wants": "Y"}],
+                    "reqs": [{"file": 0, "from": "n1", "to": "g2", "state": "pending"}], "rules": [], "unregistered": [], "ireqs": []}
+            ops = [("tools", tools, {}), ("iter", "h1"), ("iter", "h1")]
+            _, mon, final = histories.run_history(ctx, base / "hist", spec, ops, checks=())
+            ctx.count("history-local-pull")
+            done = [r for r in final["index"]["req"] if r[4]]
+            if not done:
+                ctx.broke("harness", "local pull scenario", f"the local pull ({stype}, tools {tools}, {name}) did not complete: {final['index']['req']}")
     for k in range(n):
         spec = histories.gen_spec(ctx.rng)
         ops = histories.gen_ops(ctx.rng, spec, ctx.rng.randint(5, 12))
